@@ -322,6 +322,15 @@ class Interp:
             return self._store(env, base, proj[1:], val)
         if isinstance(e, list) and e[0] == "d":
             return self._store(env, base, proj[1:], val)
+        if isinstance(e, list) and e[0] in ("i", "ci") and hasattr(base, "vid") and not isinstance(base, HRef):
+            h = dict(self.mstate.get("heap", {}))
+            items = list(h.get(base.vid, ()))
+            idx = env.get(e[1], TOP) if e[0] == "i" else ((len(items) - e[1]) if e[2] else e[1])
+            if isinstance(idx, int) and not isinstance(idx, bool) and 0 <= idx < len(items):
+                items[idx] = self._store(env, items[idx], proj[1:], val)
+                h[base.vid] = tuple(items)
+                self.mstate["heap"] = h
+            return base
         if isinstance(e, list) and e[0] == "f":
             if isinstance(base, Agg):
                 nb = Agg(base.kind, base.name, base.variant, base.fields)
@@ -831,6 +840,18 @@ def std_oracle(interp, env, f, args, t, bb, path):
                 return math.copysign(1.0, x) < 0
             if name == "is_sign_positive":
                 return math.copysign(1.0, x) > 0
+            if name == "total_cmp" and len(args) == 2 and isinstance(deref(args[1]), (int, float)):
+                y = float(deref(args[1]))
+                def tkey(z):
+                    if z != z:
+                        return (2, 0.0) if math.copysign(1.0, z) > 0 else (-2, 0.0)
+                    return (0, z) if z != 0 else (0, math.copysign(0.0, z) and 0.0) if False else (0, z)
+                kx, ky = (x, math.copysign(1.0, x)), (y, math.copysign(1.0, y))
+                if x != x or y != y:
+                    return TOP
+                lt = x < y or (x == y and kx[1] < ky[1])
+                gt = x > y or (x == y and kx[1] > ky[1])
+                return Agg("adt", "core::cmp::Ordering", "Less" if lt else "Greater" if gt else "Equal", [])
             if name == "abs":
                 return abs(x)
             if name == "floor":
